@@ -30,3 +30,17 @@ ENC(k_cbor_enc_null, int, visit_null((semantic_tag)tag, ctx, ec))
 ENC(k_cbor_enc_half, unsigned, visit_half((uint16_t)v, (semantic_tag)tag, ctx, ec))
 KFN unsigned long k_cbor_head(unsigned major, unsigned long len, unsigned char* buf, unsigned long cap) { RAWCTOR(encoder_t, raw); encoder_t* e = mkenc(raw, buf, cap); e->write_type_and_length((uint8_t)major, len); return e->sink_.n; }
 KFN unsigned long k_cbor_min_stringref(unsigned long index) { return cbor::detail::min_length_for_stringref(index); }
+// stringref (tag 25) resolution: the parser is parked with a stringref namespace holding K text strings "s0","s1",.. and a pending tag 25
+KFN int k_cbor_stringref(unsigned K, const unsigned char* s, unsigned long n, rec_ev* ev, unsigned cap, unsigned* nev, unsigned long* consumed) {
+    RAWOBJ(parser_t, p);
+    new (&p->source_) bytes_source(jsoncons::span<const uint8_t>(s, n));
+    p->more_ = true; p->max_nesting_depth_ = 1024;
+    new (&p->stringref_map_stack_) decltype(p->stringref_map_stack_)(); p->stringref_map_stack_.reserve(2); p->stringref_map_stack_.emplace_back();
+    p->stringref_map_stack_.back().reserve(4);
+    for (unsigned k = 0; k < K && k < 3; ++k) { char t[2] = {'s', (char)('0' + k)}; p->stringref_map_stack_.back().emplace_back(jsoncons::string_view(t, 2)); }
+    p->other_tags_[parser_t::stringref_tag] = true;
+    recvis v(ev, cap); std::error_code ec;
+    p->read_item(v, ec);
+    *nev = v.n; *consumed = p->source_.position();
+    return ec ? ec.value() : 0;
+}
